@@ -12,7 +12,7 @@ from ..core.seeds import rng_for, verif_seed
 from ..ragsim import gen, schedule
 from ..ragsim.case import (make_case, side, evaluate, div_class, explained_by_stale_alias, pretty,
                            hazard_info, neutralise_text)
-from ..ragsim.execute import run, first_divergence, step_dsts, step_reads
+from ..ragsim.execute import run, first_divergence, step_dsts, step_reads, ballast
 from ..ragsim.minimise import minimise
 from ..ragsim.syntax import analyse
 
@@ -26,6 +26,7 @@ MAX_RAW_PER_CHUNK = 12
 MAX_CLASSES = 12
 MAX_MIN_PER_CLASS = 2
 MINIMISE_BUDGET_S = 120
+BALLAST = 1100
 
 
 def _h(s):
@@ -109,13 +110,34 @@ def one_run(prop, seed, i, k, acc, r01_open=False):
             acc["hazard_programs"] += 1
     run_digest = hashlib.sha256(json.dumps(prog, sort_keys=True).encode())
     nontrivial_any = False
-    for st_, o_ in zip(prog, g.ex.out):
+    acc["__scout_out__"] = g.ex.out
+    # every 40th run executes in a process that already holds 1100 live arrays with live unread selections
+    n_ballast = BALLAST if i % 40 == 7 else 0
+    if n_ballast:
+        acc["runs_with_ballast"] += 1
+    with ballast(n_ballast):
+        _compare_all(prop, prog, pairs, acc, i, seed, stream, hazard_stream, r01_open, lay, psig, run_digest, n_ballast)
+    nontrivial_any = acc.pop("__nontrivial_any__", False)
+    acc.pop("__scout_out__", None)
+    if ref is None and prop == "C19" and analyse(prog, run(prog, pairs[0][0]["schedule"], "int64").out).hazard_steps:
+        acc["hazard_programs"] += 1
+    if nontrivial_any:
+        acc["nontrivial_runs"] += 1
+    if len(acc["__samples__"]) < 2 and nontrivial_any and len(prog) <= 8:
+        acc["__samples__"].append({"run_index": i, "program_and_schedules": pretty(
+            make_case(prop, prog, pairs[-1][0], pairs[-1][2])).split("\n")})
+    acc["__digests__"].append(run_digest.hexdigest()[:16])
+
+
+def _compare_all(prop, prog, pairs, acc, i, seed, stream, hazard_stream, r01_open, lay, psig, run_digest, n_ballast):
+    nontrivial_any = False
+    for st_, o_ in zip(prog, acc["__scout_out__"]):
         if st_["op"] == "getitem" and st_.get("dst"):
             acc["sel_steps"] += 1
             if o_[0] == "ok":
                 acc["sel_steps_ok"] += 1
     for sa, ea, sb, eb in pairs:
-        if ea is None:
+        if ea is None or n_ballast:       # (under ballast both executions must run inside that environment)
             ea = run(prog, sa["schedule"], sa["width"])
         probe = None
         if i % 4 == 0:
@@ -150,6 +172,8 @@ def one_run(prop, seed, i, k, acc, r01_open=False):
         if d is not None:
             case = make_case(prop, prog, sa, sb, hazard_free=(r01_open and not hazard_stream),
                              origin={"seed": seed, "stream": stream, "index": i})
+            if n_ballast:
+                case["ballast"] = n_ballast
             if r01_open and prop == "C10" and hazard_stream and explained_by_stale_alias(case, ea, eb):
                 acc["stale_alias_divergences"] += 1
                 continue
@@ -158,14 +182,7 @@ def one_run(prop, seed, i, k, acc, r01_open=False):
                 case["divergence"] = d
                 acc["__raw__"].append(case)
             break
-    if ref is None and prop == "C19" and analyse(prog, ea.out).hazard_steps:
-        acc["hazard_programs"] += 1
-    if nontrivial_any:
-        acc["nontrivial_runs"] += 1
-    if len(acc["__samples__"]) < 2 and nontrivial_any and len(prog) <= 8:
-        acc["__samples__"].append({"run_index": i, "program_and_schedules": pretty(
-            make_case(prop, prog, pairs[-1][0], pairs[-1][2])).split("\n")})
-    acc["__digests__"].append(run_digest.hexdigest()[:16])
+    acc["__nontrivial_any__"] = nontrivial_any
 
 
 def explore_chunk(lo, hi, payload):
